@@ -8,7 +8,8 @@
 2. Part 1 (responder): the harness feeds every request to the real bungeecord.NewMessageResponder
    over recording fakes built from the state and logs what the fakes saw; TLC compares with
    Respond (Bungee_Trace.tla).
-3. Part 2 (adapter, live rig): real proxy, three players on two fake backends; a backend sends
+3. Part 2 (adapter, live rig): real proxy, three players on two fake backends, a third backend on whose
+   player list one of them is still registered (mid server switch); a backend sends
    Forward / ForwardToPlayer / GetPlayerServer requests; the harness logs which backend connections
    and which clients received a BungeeCord plugin message; the same trace spec judges it.
 """
@@ -25,7 +26,8 @@ META = {
             "on either side of the 1.13 channel rename) x sub-channels x argument classes (self, other, unknown, empty, ALL, ONLINE, "
             "server names, truncated input), checks the statement's clauses on Respond and exports the requests; the "
             "real responder is fed each one over recording fakes and, for the adapter, on the live proxy with three "
-            "players on two backends; TLC compares everything that was observed with Respond. The quantifier is "
+            "players on two backends (one of them still listed on a third, connection-less server, as in the middle of a "
+            "server switch); TLC compares everything that was observed with Respond. The quantifier is "
             "inputs x small states, which this enumerates exhaustively.",
     "design_ref": "DESIGN.md section 4, C26",
     "level_note": "Not required (behaviour of BungeeCord/Velocity not certain): anything for incomplete requests except "
